@@ -662,7 +662,7 @@ func init() {
 	core.Register(&core.Property{
 		ID:    "C01",
 		Level: "exploration",
-		Rule: "for both wrappers x both entry points (the caller's step name alternating between empty and non-empty): (A) all 16x16 (signer subset, verifier subset) pairs over 4 keys of mixed type (Ed25519, ECDSA P-256, RSA-2048, ECDSA P-384) + nil map; (B) every single-point alteration (edit/replace/delete/insert/reorder at every JSON node) of the signed layout in the dumped file, reloaded with LoadMetadata, and in-memory alterations of Metablock.Signed; (C) alterations of the signature list (drop, swap ids, duplicate, replay of an older version, corrupt first/middle/last character, truncate, empty, case variants, copied signatures) under 3 verifier sets; (D) alterations of the supplied key set (non-signer added, right id with foreign material, wrong type, empty, zero key). " +
+		Rule: "for both wrappers x both entry points (the caller's step name alternating between empty and non-empty): (A) all 16x16 (signer subset, verifier subset) pairs over 4 keys of mixed type (Ed25519, ECDSA P-256, RSA-2048, ECDSA P-384) + nil map; (B) every single-point alteration (edit/replace/delete/insert/reorder at every JSON node; for every string also the alterations a normalising comparison would miss: LF->CRLF, LF->CR, leading/trailing blank, trailing newline, letter case) of the signed layout in the dumped file, reloaded with LoadMetadata, and in-memory alterations of Metablock.Signed; (C) alterations of the signature list (drop, swap ids, duplicate, replay of an older version, corrupt first/middle/last character, truncate, empty, case variants, copied signatures, several entries under one key id: corrupt + short junk, old-version + short junk, two corrupt, corrupt then valid) under 3 verifier sets; (D) alterations of the supplied key set (non-signer added, right id with foreign material, wrong type, empty, zero key). " +
 			"Oracle = ground truth by construction (which key signed which content version) + marker files of the inspection command + hook-event trace automaton. non-trivial = the call reached verify_entry; distinct = (wrapper, entry point, case family, |S|, |V|, relation / alteration kind + JSON path class)",
 		Assumptions: []string{
 			"acceptance of authentic controls is required only as an observation floor (the property is an 'only if'); a rejected control is counted as inconclusive",
